@@ -472,15 +472,14 @@ pub fn type_ops<N: Nondet, const EQUAL: bool>(n: &mut N) {
     assert_one_result(&s, ran_ok(res), if EQUAL { 2 } else { 1 });
     pa!("C08", s.d.n_calls == 0);
     let c = s.d.cells[top(&s.d)];
-    // (a cover inside the branch of the other instantiation would be dead code and reported UNREACHABLE)
+    // (covers sit outside the `if EQUAL` branches: inside the branch of the other instantiation they would be dead
+    // code and reported UNREACHABLE)
     gv_cover!(lt == GarnishDataType::Type, "left operand is itself a type value");
+    let rc = s.d.cells[ops[if EQUAL { 1 } else { 0 }]];
+    let rt = if rc.tag == GarnishDataType::Type { rc.ty } else { rc.tag };
+    gv_cover!(!EQUAL || (rc.tag == GarnishDataType::Type && lt == rt), "compared with a type value, equal");
+    gv_cover!(!EQUAL || lt != rt, "different");
     if EQUAL {
-        let rc = s.d.cells[ops[1]];
-        let rt = if rc.tag == GarnishDataType::Type { rc.ty } else { rc.tag };
-        if EQUAL {
-            gv_cover!(rc.tag == GarnishDataType::Type && lt == rt, "compared with a type value, equal");
-            gv_cover!(lt != rt, "different");
-        }
         let want = bool_tag(lt == rt);
         pa!("C01", c.tag == want);
     } else {
